@@ -1745,6 +1745,14 @@ class Interp:
                 r = a.t == b.t
             elif isinstance(a, V) and isinstance(b, V) and a.sort is TBool and b.sort is TBool:
                 r = a.t == b.t
+            elif (isinstance(a, V) and isinstance(b, V) and all(isinstance(x.sort, S.TRef) or (isinstance(x.sort, S.TOpt) and isinstance(x.sort.inner, S.TRef)) for x in (a, b))):
+                # identity between an object and an Optional object (or two Optional ones): both None, or both present and the same object
+                def parts(x):
+                    if isinstance(x.sort, S.TRef):
+                        return z3.BoolVal(False), x.t
+                    return self.is_none(x), x.terms[1]
+                (na, ra), (nb, rb) = parts(a), parts(b)
+                r = z3.Or(z3.And(na, nb), z3.And(z3.Not(na), z3.Not(nb), ra == rb))
             elif isinstance(a, ExcObj) and isinstance(b, ExcObj):
                 r = z3.BoolVal(a is b)
             else:
